@@ -8,7 +8,9 @@ Binding: every enumerated request is made on a real EtherCat object through the 
       payload and the returned value (or the exception) are judged by TLC against Codec.tla."""
 import asyncio
 import json
+import logging
 import math
+import struct
 
 from harness import tlc as T
 
@@ -83,6 +85,14 @@ def show(a):
     return a if isinstance(a, (str, int)) else repr(a) if isinstance(a, float) else list(a)
 
 
+def outcome_of(ret):
+    if isinstance(ret, tuple):
+        return dict(op="return", shape="tuple", items=[item(x) for x in ret])
+    if isinstance(ret, (bytes, bytearray)):
+        return dict(op="return", shape="bytes", items=[item(ret)])
+    return dict(op="return", shape="other:" + type(ret).__name__, items=[])
+
+
 async def one_call(req):
     """one real roundtrip; returns the recorded events"""
     from ebpfcat.ethercat import EtherCat, ECCmd
@@ -110,12 +120,7 @@ async def one_call(req):
     except Exception as ex:
         outcome = dict(op="raise", exc=type(ex).__name__, msg=str(ex)[:120])
     else:
-        if isinstance(ret, tuple):
-            outcome = dict(op="return", shape="tuple", items=[item(x) for x in ret])
-        elif isinstance(ret, (bytes, bytearray)):
-            outcome = dict(op="return", shape="bytes", items=[item(ret)])
-        else:
-            outcome = dict(op="return", shape="other:" + type(ret).__name__, items=[])
+        outcome = outcome_of(ret)
     if not consumer.done():
         consumer.cancel()
     try:
@@ -128,6 +133,106 @@ async def one_call(req):
     outcome["resp"] = resp[0]["resp"] if resp else []
     ev.append(outcome)
     return ev
+
+
+class FakeTransport:
+    """the socket: keeps the frames the real send loop hands over"""
+    class _sock:
+        @staticmethod
+        def bind(addr):
+            pass
+
+    def __init__(self):
+        self.frames = []
+
+    def sendto(self, frame, addr):
+        self.frames.append(bytes(frame))
+
+
+def frame_datagrams(frame):
+    """(adp, ado, data start, data stop) of the datagrams after the identification datagram"""
+    out, pos, more = [], 16, True
+    while more and pos + 12 <= len(frame):
+        adp, ado, ln = struct.unpack_from("<hHH", frame, pos + 2)
+        more = bool(ln & 0x8000)
+        ln &= 0x7ff
+        out.append((adp, ado, pos + 10, pos + 10 + ln))
+        pos += 12 + ln
+    return out
+
+
+async def frame_scenario(slots, reqs):
+    """several concurrent real roundtrip calls through the real send loop, Packet and
+    process_packet; the bus answers every datagram as the slot says; returns one trace per call"""
+    from ebpfcat.ethercat import EtherCat, ECCmd, EtherCatError
+    ec = EtherCat("x")
+    ec.send_queue = asyncio.Queue()
+    tr = FakeTransport()
+    ec.connection_made(tr)                      # starts the real send loop
+    me = asyncio.current_task()
+    tasks, where = [], {}
+    for i, (slot, req) in enumerate(zip(slots, reqs)):
+        args, kw = call_args(req)
+        where[(101 + i, 0x100 * (i + 1))] = i
+        tasks.append(asyncio.ensure_future(
+            ec.roundtrip(ECCmd.FPRW, 101 + i, 0x100 * (i + 1), *args, idx=i, **kw)))
+    await asyncio.sleep(0)                      # every call has queued its datagram
+    for slot, t in zip(slots, tasks):
+        if slot["cancel"] == "early":
+            t.cancel()
+    seen = {}
+    for _ in range(200):                        # until every datagram is on the wire
+        await asyncio.sleep(0)
+        seen = {}
+        for f, frame in enumerate(tr.frames):
+            for adp, ado, start, stop in frame_datagrams(frame):
+                if (adp, ado) in where:
+                    seen[where[(adp, ado)]] = (f, start, stop)
+        if len(seen) == len(tasks) and ec.send_queue.empty():
+            break
+    for slot, t in zip(slots, tasks):
+        if slot["cancel"] == "flight":
+            t.cancel()
+    for _ in range(3):
+        await asyncio.sleep(0)
+    answers = [bytearray(f) for f in tr.frames]
+    resps = {}
+    for i, (f, start, stop) in seen.items():
+        rs = reqs[i]["rseed"]
+        if slots[i]["wkc"]:
+            resps[i] = bytes((rs * (k + 1) + 17 + 5 * i) % 256 for k in range(stop - start))
+            answers[f][start:stop] = resps[i]
+        else:
+            resps[i] = bytes(answers[f][start:stop])
+        struct.pack_into("<H", answers[f], stop, slots[i]["wkc"])
+    for a in answers:
+        ec.datagram_received(bytes(a), None)
+    await asyncio.wait(tasks, timeout=2.0)
+    traces = []
+    for i, (slot, req, t) in enumerate(zip(slots, reqs, tasks)):
+        ev = []
+        if i in seen:
+            f, start, stop = seen[i]
+            ev.append(dict(op="send", out=list(tr.frames[f][start:stop]), frame=f))
+        if not t.done():
+            out = dict(op="hang")
+        elif t.cancelled():
+            out = dict(op="cancelled")
+        elif isinstance(t.exception(), EtherCatError):
+            out = dict(op="error", msg=str(t.exception())[:80])
+        elif t.exception() is not None:
+            out = dict(op="raise", exc=type(t.exception()).__name__, msg=str(t.exception())[:120])
+        else:
+            out = outcome_of(t.result())
+        out["resp"] = list(resps.get(i, b""))
+        ev.append(out)
+        traces.append(dict(req=req, wkc=slot["wkc"], cancel=slot["cancel"], ev=ev, slot=i,
+                           slots=slots, reqs=reqs, frames=len(tr.frames)))
+    for t in asyncio.all_tasks():
+        if t is not me:
+            t.cancel()
+    await asyncio.sleep(0)
+    return traces
 
 
 SIZES = dict(B=1, b=1, H=2, h=2, I=4, i=4, L=4, l=4, Q=8, q=8)
@@ -182,21 +287,56 @@ def random_req(rng):
 
 
 def judge(ctx, wd, reqs):
+    """single calls: the send queue is served directly by a stub"""
     loop = asyncio.new_event_loop()
-    traces = [dict(req=r, ev=loop.run_until_complete(one_call(r))) for r in reqs]
+    traces = [dict(req=r, wkc=1, cancel="no", ev=loop.run_until_complete(one_call(r)))
+              for r in reqs]
     loop.close()
-    results = T.validate_traces(ctx, wd, "CodecTrace", "CodecTrace.cfg", traces, chunk=4000,
-                                timeout=600)
+    verdicts(ctx, wd, traces)
+
+
+BIG = dict(kind="count", n=1000, bytes=[])      # two of these do not share a frame
+
+
+def judge_frames(ctx, wd, scenarios, pool, rounds):
+    """concurrent calls through the real send loop; slot j of scenario s gets a request shape
+    from the pool (rotating), "big" slots get 1000 raw bytes so that the frame overflows"""
+    loop = asyncio.new_event_loop()
+    loop.set_exception_handler(lambda l, c: None)    # failures show up in the calls' outcomes
+    logging.disable(logging.CRITICAL)
+    traces = []
+    try:
+        for rnd in range(rounds):
+            for n, slots in enumerate(scenarios):
+                reqs = [pool[(11 * n + 5 * j + 17 * rnd) % len(pool)] for j in range(len(slots))]
+                reqs = [dict(r, data=BIG) if sl["big"] else r for r, sl in zip(reqs, slots)]
+                traces += loop.run_until_complete(
+                    asyncio.wait_for(frame_scenario(slots, reqs), 20))
+    finally:
+        logging.disable(logging.NOTSET)
+        loop.close()
+    verdicts(ctx, wd, traces)
+    return len(traces)
+
+
+def verdicts(ctx, wd, traces):
+    results = T.validate_traces(ctx, wd, "CodecTrace", "CodecTrace.cfg",
+                                [dict(req=t["req"], wkc=t["wkc"], cancel=t["cancel"], ev=t["ev"])
+                                 for t in traces], chunk=4000, timeout=600)
     for t, (matched, length, inv) in zip(traces, results):
         r = t["req"]
         ctx.traces += 1
         nfmt = len(r["groups"]) + (1 if r["ro"]["present"] else 0)
-        ctx.evaluated(json.dumps(r, sort_keys=True),
+        framed = "slots" in t
+        ctx.evaluated(json.dumps([r, t["wkc"], t["cancel"], t.get("slot"), t.get("slots")],
+                                 sort_keys=True),
                       nontrivial=nfmt >= 1 and (len(r["groups"]) >= 1 or r["data"]["kind"] != "none"))
-        if nfmt >= 2 and r["data"]["kind"] == "bytes" and r["data"]["n"] and len(ctx.samples) < 3:
+        if len(ctx.samples) < 3 and (framed and len(t["slots"]) >= 2 and t["wkc"] and t["slot"] >= 1
+                                     if len(ctx.samples) == 2 else
+                                     nfmt >= 2 and r["data"]["kind"] == "bytes" and r["data"]["n"]):
             args, kw = call_args(r)
-            ctx.sample(dict(args=[show(a) for a in args],
-                            data=list(kw["data"]), ev=t["ev"]))
+            ctx.sample(dict(args=[show(a) for a in args], data=show(kw.get("data", "")),
+                            slots=t.get("slots"), slot=t.get("slot"), ev=t["ev"]))
         if matched != length or isinstance(inv, str):
             bad = t["ev"][matched] if matched < length else None
             args, kw = call_args(r)
@@ -204,10 +344,13 @@ def judge(ctx, wd, reqs):
                 dict(req=r, formats=[a for a in args if isinstance(a, str)], n_formats=nfmt,
                      n_valued_formats=len(r["groups"]), read_only=r["ro"]["present"],
                      data_kind=r["data"]["kind"], data_len=r["data"]["n"], ev=t["ev"],
-                     rejected_at=matched, rejected_event=bad,
+                     rejected_at=matched, rejected_event=bad, framed=framed, wkc=t["wkc"],
+                     cancel=t["cancel"], slot=t.get("slot"), slots=t.get("slots"),
+                     frames=t.get("frames"), frame_reqs=t.get("reqs"),
                      outcome=t["ev"][-1]["op"], exc=t["ev"][-1].get("exc", "")),
-                f"roundtrip{tuple(args)} data={kw.get('data')!r}: event {matched} rejected by "
-                f"Codec: {bad}")
+                f"roundtrip{tuple(args)} data={kw.get('data')!r}"
+                + (f" as call {t['slot']} of {t['slots']}" if framed else "")
+                + f": event {matched} rejected by Codec: {bad}")
 
 
 OLD = ["B", "H", "I", "HI", "H2xH", "4x", "8s"]                # unsigned, padding, byte string
@@ -252,6 +395,25 @@ def run(ctx):
     judge(ctx, wd, reqs)
     extra = [random_req(ctx.rng) for _ in range(400 if ctx.quick else 4000)]
     judge(ctx, wd, extra)
+    # concurrent calls sharing frames: scenarios from TLC, request shapes from the lists above
+    calls, cancels = (3, ["no", "flight"]) if ctx.quick else (4, ["no", "early", "flight"])
+    T.write_cfg(wd, "frames.cfg", f"""SPECIFICATION FSpec
+CONSTANTS MaxCalls = {calls}
+          Cancels = {{{", ".join(json.dumps(c) for c in cancels)}}}
+          Bigs = {{FALSE, TRUE}}
+INVARIANT Emit
+CHECK_DEADLOCK FALSE
+""")
+    res = T.require_clean(T.run(wd, "CodecFrames", "frames.cfg", workers=1, timeout=600),
+                          "CodecFrames")
+    ctx.tlc_stats(res)
+    scenarios = [r[0] for r in T.printed_records(res, "SCENARIO")]
+    if len(scenarios) < 100:
+        raise T.MachineryError(f"only {len(scenarios)} frame scenarios enumerated")
+    pool = reqs[::max(1, len(reqs) // 97)] + extra[:40]
+    framed = judge_frames(ctx, wd, scenarios, pool, 1 if ctx.quick else 2)
+    ctx.extra["frame_scenarios"] = len(scenarios)
+    ctx.extra["framed_calls"] = framed
     ctx.exhaustive = True
     ctx.rule = ("all requests TLC enumerates for the plans "
                 + "; ".join(f"0..{g} valued format strings from {n}, {len(v)} value rotation(s)"
@@ -260,8 +422,22 @@ def run(ctx):
                   "3, b'', 1-3 bytes}; values rotate through boundary tables per field code "
                   "(unsigned, signed, 64-bit, binary16/32/64 floats with fractions, zeros and "
                   f"infinities, bool, char, byte and Pascal strings); plus {len(extra)} random requests "
-                  "over all struct codes; non-trivial = at least one format and (a value or raw data)")
+                  f"over all struct codes; plus {len(scenarios)} TLC-enumerated environments of 1..{calls} "
+                  f"concurrent calls through the real send loop (per call: working counter 0/1, "
+                  f"cancel in {cancels}, big = starts a new frame), {framed} calls; non-trivial = at least one format and (a value or raw data)")
 
 
 def replay(ctx, case):
-    judge(ctx, ctx.workdir(), [case["req"]])
+    wd = ctx.workdir()
+    if case.get("framed"):
+        loop = asyncio.new_event_loop()
+        loop.set_exception_handler(lambda l, c: None)
+        logging.disable(logging.CRITICAL)
+        try:
+            traces = loop.run_until_complete(frame_scenario(case["slots"], case["frame_reqs"]))
+        finally:
+            logging.disable(logging.NOTSET)
+            loop.close()
+        verdicts(ctx, wd, traces)
+    else:
+        judge(ctx, wd, [case["req"]])
